@@ -452,11 +452,13 @@ def part_router(sub, tier, acc, k=None):
 
 def part_tables_case(acc, sub, tables):
     from rig.routing_table import RoutingTableEntry, Routes
-    if True:
-        sim = SimMachine(repo(), 2, 2)
+    for uniform in (False, True):
+        # the staging buffer lives at the same address on every chip
+        # (usual on hardware) or at chip-dependent addresses
+        sim = SimMachine(repo(), 2, 2, uniform_sys=uniform)
         acc.evaluations += 1
         acc.nontrivial += 1
-        case = dict(part="router", sub=sub)
+        case = dict(part="router", sub=sub, uniform_sys=uniform)
         # the staging buffers hold different garbage on every chip
         with Session(sim) as s:
             try:
